@@ -1073,10 +1073,7 @@ type mapHeaps struct {
 
 func (fr *Frame) mapInfo(t types.Type) *mapHeaps {
 	m := t.Underlying().(*types.Map)
-	if !isLeaf(m.Key()) {
-		panic(unsupported("map with composite key %s", m.Key()))
-	}
-	ks := sortOf(m.Key())
+	ks := fr.x.keySort(m.Key())
 	key := "HM:" + typeKey(m.Key()) + ":" + typeKey(m.Elem())
 	mh := &mapHeaps{dom: key + ":dom", ln: key + ":len", domS: "(Array Int (Array " + ks + " Bool))", kSort: ks, vt: m.Elem(), key: key}
 	mh.valLeaves = leavesOf(m.Elem())
@@ -1088,6 +1085,54 @@ func (fr *Frame) mapInfo(t types.Type) *mapHeaps {
 		return n
 	}
 	return mh
+}
+
+// keySort is the SMT sort of map keys of type t: the leaf sort, or for a struct key an
+// algebraic datatype with one field per leaf (so key equality is field-wise equality).
+func (x *Exec) keySort(t types.Type) string {
+	if isLeaf(t) {
+		return sortOf(t)
+	}
+	if kindOf(t) != KStruct {
+		panic(unsupported("map with composite key %s", t))
+	}
+	name := sym("K:" + typeKey(t))
+	if !x.em.funcs[name] {
+		x.em.funcs[name] = true
+		var fs []string
+		for i, l := range leavesOf(t) {
+			fs = append(fs, fmt.Sprintf("(%s %s)", sym(fmt.Sprintf("K:%s:f%d", typeKey(t), i)), l.Sort))
+		}
+		x.em.Raw("(declare-datatypes ((" + name + " 0)) (((" + sym("mk:K:"+typeKey(t)) + " " + strings.Join(fs, " ") + "))))")
+	}
+	return name
+}
+
+// keyTerm is the SMT term of a map key value.
+func (fr *Frame) keyTerm(k *SVal) string {
+	if k.Term != "" || isLeaf(k.T) {
+		return k.Term
+	}
+	fr.x.keySort(k.T)
+	var ts []string
+	for _, l := range k.flat() {
+		ts = append(ts, l.Term)
+	}
+	return "(" + sym("mk:K:"+typeKey(k.T)) + " " + strings.Join(ts, " ") + ")"
+}
+
+// keyVal rebuilds a key value of type t from a term of its key sort.
+func (fr *Frame) keyVal(t types.Type, term string) *SVal {
+	if isLeaf(t) {
+		return leaf(t, term)
+	}
+	fr.x.keySort(t)
+	i := 0
+	return buildVal(t, func(l Leaf) string {
+		r := "(" + sym(fmt.Sprintf("K:%s:f%d", typeKey(t), i)) + " " + term + ")"
+		i++
+		return r
+	})
 }
 
 func (mh *mapHeaps) valSort(l Leaf) string { return "(Array Int (Array " + mh.kSort + " " + l.Sort + "))" }
@@ -1122,9 +1167,10 @@ func (fr *Frame) mapUpdate(m, k, v *SVal) {
 	fr.oblige("safe:mapnil", "", sNot(sEq(m.Term, "0")), "")
 	dom := x.heapGet(fr.cur, mh.dom, mh.domS)
 	ln := x.heapGet(fr.cur, mh.ln, "(Array Int Int)")
-	was := sSelect(sSelect(dom, m.Term), k.Term)
+	kt := fr.keyTerm(k)
+	was := sSelect(sSelect(dom, m.Term), kt)
 	fr.heapSet(mh.ln, "(Array Int Int)", sStore(ln, m.Term, sAdd(sSelect(ln, m.Term), sIte(was, "0", "1"))))
-	fr.heapSet(mh.dom, mh.domS, sStore(dom, m.Term, sStore(sSelect(dom, m.Term), k.Term, "true")))
+	fr.heapSet(mh.dom, mh.domS, sStore(dom, m.Term, sStore(sSelect(dom, m.Term), kt, "true")))
 	fl := v.flat()
 	for j, l := range mh.valLeaves {
 		n := mh.valHeapName(l)
@@ -1133,7 +1179,7 @@ func (fr *Frame) mapUpdate(m, k, v *SVal) {
 		if fl[j].Loc != nil && fl[j].Loc.Kind == LRef && len(fl[j].Loc.Path) == 0 {
 			t = fl[j].Loc.Base
 		}
-		fr.heapSet(n, mh.valSort(l), sStore(hv, m.Term, sStore(sSelect(hv, m.Term), k.Term, t)))
+		fr.heapSet(n, mh.valSort(l), sStore(hv, m.Term, sStore(sSelect(hv, m.Term), kt, t)))
 	}
 }
 
@@ -1142,10 +1188,11 @@ func (fr *Frame) mapDelete(m, k *SVal) {
 	mh := fr.mapInfo(m.T)
 	dom := x.heapGet(fr.cur, mh.dom, mh.domS)
 	ln := x.heapGet(fr.cur, mh.ln, "(Array Int Int)")
-	was := sSelect(sSelect(dom, m.Term), k.Term)
+	kt := fr.keyTerm(k)
+	was := sSelect(sSelect(dom, m.Term), kt)
 	// delete on a nil map is a no-op
 	fr.heapSet(mh.ln, "(Array Int Int)", sStore(ln, m.Term, sSub(sSelect(ln, m.Term), sIte(sAnd(was, sNot(sEq(m.Term, "0"))), "1", "0"))))
-	fr.heapSet(mh.dom, mh.domS, sStore(dom, m.Term, sStore(sSelect(dom, m.Term), k.Term, "false")))
+	fr.heapSet(mh.dom, mh.domS, sStore(dom, m.Term, sStore(sSelect(dom, m.Term), kt, "false")))
 }
 
 func (fr *Frame) lookup(i *ssa.Lookup) {
@@ -1161,7 +1208,7 @@ func (fr *Frame) lookup(i *ssa.Lookup) {
 		fr.vals[i] = r
 		return
 	}
-	val, in := fr.mapLookupIn(fr.cur, m, k.Term)
+	val, in := fr.mapLookupIn(fr.cur, m, fr.keyTerm(k))
 	in = sAnd(sNot(sEq(m.Term, "0")), in)
 	inc := x.em.Def("inmap", "Bool", in)
 	mh := fr.mapInfo(m.T)
@@ -1203,8 +1250,15 @@ func (fr *Frame) next(i *ssa.Next) {
 	if kindOf(kt) == KOther || types.Identical(kt, types.Typ[types.Invalid]) {
 		kt = src.T.Underlying().(*types.Map).Key()
 	}
-	k := fr.freshVal("next.k", src.T.Underlying().(*types.Map).Key())
-	val, in := fr.mapLookupIn(fr.cur, src, k.Term)
+	keyT := src.T.Underlying().(*types.Map).Key()
+	var k *SVal
+	if isLeaf(keyT) {
+		k = fr.freshVal("next.k", keyT)
+	} else {
+		k = fr.keyVal(keyT, x.em.Fresh("next.k", mh.kSort))
+		fr.assumeRanges(k)
+	}
+	val, in := fr.mapLookupIn(fr.cur, src, fr.keyTerm(k))
 	fr.assume(sImp(ok, sAnd(in, sNot(sEq(src.Term, "0")))))
 	fr.assumeRanges(val)
 	_ = mh
